@@ -128,6 +128,7 @@ Print Assumptions C17_g12_spec.
 
 Lemma g12_len24 : forall d, (length (fmt_g12 d) <= 24)%nat.
 Proof. intros d. pose proof (fmt_g12_length d). lia. Qed.
+Print Assumptions g12_len24.
 
 (* C17_in_bounds without an assumption about the %.12g text: the stream with the model's fmt_g12 *)
 Theorem C17_in_bounds : forall c items, (1 <= c)%nat ->
